@@ -137,8 +137,10 @@ Section Ten.
   Lemma not5_2pow k : 0 <= k -> ~ (5 | 2 ^ k).
   Proof. intros Hk. apply (not_div_pow 5 prime_5); [|exact Hk]. intros [q Hq]. lia. Qed.
 
-  (* a^n | D^(n+1), n >= 1  ->  a | D^2 *)
-  Lemma claimC a n : a <> 0 -> 1 <= n -> (a ^ n | D ^ (n + 1)) -> (a | D * D).
+  (* a^n | D^(n+1), n >= 1: a is +-2^u 5^w with bounded exponents *)
+  Lemma claimC_struct a n : a <> 0 -> 1 <= n -> (a ^ n | D ^ (n + 1)) ->
+    exists u w c, 0 <= u /\ 0 <= w /\ (c = 1 \/ c = -1) /\ a = 2 ^ u * 5 ^ w * c /\
+                  u * n <= s * (n + 1) /\ w * n <= s * (n + 1).
   Proof.
     intros Ha Hn H.
     destruct (pfactor 2 prime_2 a Ha) as (u & c2 & Hu & Ea & Hc2).
@@ -177,14 +179,35 @@ Section Ten.
         { intros Hx. destruct (prime_mult 5 prime_5 _ _ Hx) as [Hy|Hy]; [apply (not5_2pow u Hu Hy)|tauto]. }
         apply (pow_div_iff 5 prime_5 w (2 ^ u * c) n _ Hn5); nia. }
       apply (pow_div_iff 5 prime_5 s (2 ^ s) (n + 1) _ (not5_2pow s ltac:(lia))) in Hd5; nia. }
+    exists u, w, c. repeat split; try assumption. rewrite Ea, Ec2. ring.
+  Qed.
+
+  (* a^n | D^(n+1), n >= 1  ->  a | D^2 *)
+  Lemma claimC a n : a <> 0 -> 1 <= n -> (a ^ n | D ^ (n + 1)) -> (a | D * D).
+  Proof.
+    intros Ha Hn H. destruct (claimC_struct a n Ha Hn H) as (u & w & c & Hu & Hw & Hc & Ea & Hu2 & Hw5).
     assert (Hu' : u <= 2 * s) by nia. assert (Hw' : w <= 2 * s) by nia.
     assert (HDD : D * D = 2 ^ (2 * s) * 5 ^ (2 * s)).
     { rewrite <- Z.pow_2_r, <- Z.pow_mul_r by lia. change 10 with (2 * 5). rewrite Z.pow_mul_l. f_equal; f_equal; lia. }
-    rewrite HDD, Ea, Ec2.
+    rewrite HDD, Ea.
     replace (2 * s) with (u + (2 * s - u)) at 1 by lia. replace (2 * s) with (w + (2 * s - w)) at 2 by lia.
     rewrite !Z.pow_add_r by lia.
-    destruct Hr5 as [-> | ->].
+    destruct Hc as [-> | ->].
     - exists (2 ^ (2 * s - u) * 5 ^ (2 * s - w)). ring.
     - exists (- (2 ^ (2 * s - u) * 5 ^ (2 * s - w))). ring.
+  Qed.
+
+  (* for an exponent above s even  a | D *)
+  Lemma claimD a n : a <> 0 -> s < n -> (a ^ n | D ^ (n + 1)) -> (a | D).
+  Proof.
+    intros Ha Hn H. destruct (claimC_struct a n Ha ltac:(lia) H) as (u & w & c & Hu & Hw & Hc & Ea & Hu2 & Hw5).
+    assert (Hu' : u <= s) by nia. assert (Hw' : w <= s) by nia.
+    assert (HDD : D = 2 ^ s * 5 ^ s) by (change 10 with (2 * 5); apply Z.pow_mul_l).
+    assert (E2 : 2 ^ s = 2 ^ u * 2 ^ (s - u)) by (rewrite <- Z.pow_add_r by lia; f_equal; lia).
+    assert (E5 : 5 ^ s = 5 ^ w * 5 ^ (s - w)) by (rewrite <- Z.pow_add_r by lia; f_equal; lia).
+    rewrite HDD, E2, E5, Ea.
+    destruct Hc as [-> | ->].
+    - exists (2 ^ (s - u) * 5 ^ (s - w)). ring.
+    - exists (- (2 ^ (s - u) * 5 ^ (s - w))). ring.
   Qed.
 End Ten.
